@@ -647,8 +647,12 @@ class GenFn(Gen):
         objs = sc.of_kind("obj")
         if objs and self.chance(0.1):
             o = self.pick(objs)
-            if self.chance(0.5):
+            r = self.rng.random()
+            if r < 0.4:
                 return ("mcall", ("var", o.name), "get", [])
+            if r < 0.6:
+                # a -> obj.add : the piped call into a member keeps the container as self
+                return ("pipe", ("int", self.rng.randint(-3, 9)), ("access", ("var", o.name), "add"), [])
             return ("mcall", ("var", o.name), "add", [self.expr("int", sc, d + 1)])
         return super().x_int(sc, d)
 
@@ -963,7 +967,7 @@ class GenMatch(Gen):
 # =================================================================================================
 # err profile (C04): planted faults under nested try / catch / finally
 # =================================================================================================
-FAULT_KINDS = ("throw_str", "throw_obj", "index", "type", "assert", "args", "native", "interp", "assert_eq")
+FAULT_KINDS = ("throw_str", "throw_obj", "index", "type", "assert", "args", "native", "interp", "assert_eq", "overload")
 
 class GenErr(GenFn):
     """Skeletons of nested try / typed catches / finally across function calls, native callbacks (each / keep / fold),
@@ -1005,6 +1009,16 @@ class GenErr(GenFn):
             f = self.fresh("h")
             return [("assign", ("var", f), ("fn", [(("var", "a"), None), (("var", "b"), None)], None, [("var", "a")], False, [], None)),
                     ("assign", ("var", tmp), ("call", ("var", f), [("int", 1)] if self.chance(0.5) else [("int", 1), ("int", 2), ("int", 3)]))], "String", None
+        if kind == "overload":
+            # the error is raised inside an operator overload: directly (== / negate) or behind a derived comparison (!= from @==)
+            o = self.fresh("ov")
+            inner = [("throw", ("str", ["e%d" % n]))]
+            form = self.rng.randint(0, 2)
+            key = "@negate" if form == 2 else "@=="
+            params = [] if form == 2 else [(("var", "other"), None)]
+            obj = ("map", [(key, ("fn", params, None, inner, False, [], None)), ("code", ("int", n))])
+            use = ("neg", ("var", o)) if form == 2 else ("bin", "==" if form == 0 else "!=", ("var", o), ("int", 1))
+            return [("assign", ("var", o), obj), ("assign", ("var", tmp), use)], "String", "e%d" % n
         if kind == "interp":
             return [("assign", ("var", tmp), ("str", ["pre", ("interp", ("bin", "+", ("int", 1), ("null",))), "post"]))], "String", None
         if kind == "native":
